@@ -163,7 +163,8 @@ theorem indexes_with_drops_end_to_end' (g : Globals) (hg : g.dialect = .mysql) (
         ((∀ s ∈ tbN.idxs, ∀ o ∈ tbO.idxs, o.name = s.name → o ≠ s → ∃ c ∈ o.cols, c ∉ dc) →
           ∃ R, Abs.Idx.execAll (Abs.Idx.prune dc tbO.idxs) (ss.filterMap idxStmt) = some R ∧ R.Perm tbN.idxs) ∧
         cs = (Table.walkCols g t true [] td.cols).1 ∧ dc = (Table.walkCols g t true [] td.cols).2 ∧
-        (∀ s ∈ ss, s.table = t ∧ ((∃ cols, s = .addPrimaryKey t cols) ∨ s = .dropPrimaryKey t ∨ (idxStmt s).isSome = true)) := by
+        (∀ s ∈ ss, s.table = t ∧ ((∃ cols, s = .addPrimaryKey t cols) ∨ s = .dropPrimaryKey t ∨ (idxStmt s).isSome = true)) ∧
+        (Abs.Idx.names tbN.idxs).Nodup ∧ (Abs.Idx.names tbO.idxs).Nodup := by
   have hoc : old.all Stmt.colSafe = true :=
     List.all_eq_true.mpr (fun s hs => Stmt.colSafe_of_elemSafe s (List.all_eq_true.mp ho s hs))
   have hnc : new.all Stmt.colSafe = true :=
@@ -286,7 +287,7 @@ theorem indexes_with_drops_end_to_end' (g : Globals) (hg : g.dialect = .mysql) (
     obtain ⟨i, _, hi⟩ := List.mem_flatMap.mp hs
     exact Table.supStmts_shape _ t i s hi
   refine ⟨td, htd_mem, hname, hact, (Table.walkCols g t true [] td.cols).1, (Table.walkCols g t true [] td.cols).2, ss,
-    ?_, ?_, hdcN, hproj, ?_, rfl, rfl, hshape⟩
+    ?_, ?_, hdcN, hproj, ?_, rfl, rfl, hshape, hNn, hOn⟩
   · unfold Table.migrationColumnUp
     rw [hact, hname]
     rfl
